@@ -565,10 +565,12 @@ func runUtxo(seed uint64, n int, outDir string, replay string) {
 					}
 					if !bytes.Equal(crypto.PubkeyBytesToAddress(in.PubKey, utLoc).Bytes(), common.BytesToAddress(e.addr, utLoc).Bytes()) {
 						o.Violate("c01-spent-by-non-owner", fmt.Sprintf("outpoint %s owned by %x spent with the key of %x", key, e.addr, crypto.PubkeyBytesToAddress(in.PubKey, utLoc).Bytes()))
+						o.Violate("c03-qi-spend-not-authorised-by-owner", fmt.Sprintf("accepted Qi transaction consumes outpoint %s of %x under the key of %x: its signature was not made with the owner's key", key, e.addr, crypto.PubkeyBytesToAddress(in.PubKey, utLoc).Bytes()))
 					}
 				}
 				if checkSig && !sigOK {
 					o.Violate("c01-accepted-without-valid-signature", "a tx altered after signing was accepted with checkSig")
+					o.Violate("c03-qi-accepted-without-valid-signature", "a Qi transaction whose signed content (chain id / inputs / outputs / data) was altered after signing is accepted with signature checking on")
 				}
 				local := new(big.Int).Set(added)
 				lhs := new(big.Int).Set(totalIn)
